@@ -60,21 +60,6 @@ def zoned(ctx):
     ctx.sample({"zoned_clients_trace_head": rows[:8]})
 
 
-def window(ctx):
-    """a client datagram during the teardown of its previous association (exact schedule through the recording metrics)"""
-    import json, os
-    d = ctx.sub("window")
-    tf, sf = os.path.join(d, "trace.ndjson"), os.path.join(d, "sum.json")
-    rc, out, err = U.run_capped([U.driver(ctx), "window", "-out", tf, "-summary", sf, "-seed", str(ctx.seed)], timeout=120)
-    if rc != 0:
-        raise vlib.Inconclusive("udpnat window failed rc=%s: %s" % (rc, err[-1500:]))
-    U.validate(ctx, tf, "UdpNatTraceReal.cfg", WINDOW_PROPS, "datagram during the teardown of the client's previous association")
-    sums = json.load(open(sf))
-    U.summary_violations(ctx, sums, None, "datagram during teardown", {"returned", "leak"})
-    ctx.cov["evaluations"] += len(sums)
-    ctx.cov["distinct_nontrivial"] += len(sums)
-
-
 def run(ctx):
     q = ctx.quick
     U.exhaustive(ctx, ["MC_UdpNatC03.cfg", "MC_UdpNatSync.cfg"] if q else ["MC_UdpNatC03T.cfg", "MC_UdpNatSync.cfg", "MC_UdpNatLong.cfg"], "C04")
@@ -94,7 +79,7 @@ def run(ctx):
         if fam == "def":
             ctx.cov["hostname_datagrams"] = sum(1 for r in rows if r.get("ev") == "CSend" and r["dst"] in (11, 12, 13))
     zoned(ctx)
-    window(ctx)
+    U.window(ctx, WINDOW_PROPS)
     vlib.write_evidence(ctx, "model_checking",
                         "as C03; non-trivial = at least two clients have associations in the behaviour, or a stranger / other-port "
                         "socket sends to an association's source port",
